@@ -141,7 +141,40 @@ func (b *c10Body) Close() error { b.closed++; return nil }
 
 type c10RT struct{}
 
+type c10Key struct{}
+
+var (
+	c10Conc     bool
+	c10ConcURLs [2][]string
+	c10ConcSlow int // which probe's first exchange is slow
+)
+
+// concurrent mode: the probe is identified by a value in its context; probe c10ConcSlow's GET / is slow
+func c10ConcRoundTrip(req *http.Request) (*http.Response, error) {
+	ctx := req.Context()
+	id, _ := ctx.Value(c10Key{}).(int)
+	first := len(c10ConcURLs[id]) == 0
+	c10ConcURLs[id] = append(c10ConcURLs[id], req.URL.String())
+	if first && id == c10ConcSlow {
+		select {
+		case <-ctx.Done():
+			return nil, ctx.Err()
+		case <-time.After(time.Second):
+		}
+	}
+	text := `{"cluster_name":"c","version":{"number":"7.1"}}`
+	if !first {
+		text = ` {"i1":{"aliases":{}}}`
+	}
+	body := &c10Body{ctx: ctx, data: []byte(text)}
+	return &http.Response{StatusCode: 200, Status: "x", Proto: "HTTP/1.1", ProtoMajor: 1, ProtoMinor: 1,
+		Header: http.Header{}, Body: body, ContentLength: -1, Request: req}, nil
+}
+
 func (c10RT) RoundTrip(req *http.Request) (*http.Response, error) {
+	if c10Conc {
+		return c10ConcRoundTrip(req)
+	}
 	k := len(c10Calls)
 	ctx := req.Context()
 	call := c10Call{method: req.Method, url: req.URL.String(), at: time.Duration(verifNow())}
@@ -447,6 +480,48 @@ func VerifH_C10_elasticTwo() {
 	}
 	for i, r := range recs {
 		verifAssert(r.Host == tg[i].host && r.Info != nil, "a record changed when a later probe was made")
+	}
+	verifCover("done")
+}
+
+// VerifH_C10_elasticConc: two probes of different targets by one scanner AT THE SAME TIME (the generic
+// engine shares one scanner between its workers); one of them waits for its GET / while the other runs
+// to completion: every request goes to its own probe's target and each record is its own.
+func VerifH_C10_elasticConc() {
+	verifNow()
+	c10Conc = true
+	defer func() { c10Conc = false }()
+	c10ConcURLs = [2][]string{}
+	c10ConcSlow = c10Choice("slow", 2)
+	t0 := c10Choice("target0", uint8(len(c10Targets)))
+	t1 := (t0 + 1 + c10Choice("target1", uint8(len(c10Targets)-1))) % len(c10Targets)
+	tg := [2]c10Target{c10Targets[t0], c10Targets[t1]}
+	s := NewScanner("http", WithDataTimeout(5*time.Second))
+	var res [2]scan.Result
+	var errs [2]error
+	done := make(chan int, 2)
+	for id := 0; id < 2; id++ {
+		id := id
+		go func() {
+			ctx := context.WithValue(context.Background(), c10Key{}, id)
+			res[id], errs[id] = s.Scan(ctx, &scan.Request{DstIP: tg[id].ip, DstPort: tg[id].port})
+			done <- id
+		}()
+	}
+	<-done
+	<-done
+	for id := 0; id < 2; id++ {
+		verifAssert(errs[id] == nil && res[id] != nil, "an endpoint serving a JSON object was not reported")
+		for i, u := range c10ConcURLs[id] {
+			want := "http://" + tg[id].host + "/"
+			if i == 1 {
+				want += "_aliases"
+			}
+			verifAssert(i > 1 || u == want, "a request of one probe went to another probe's target: "+u+" want "+want)
+		}
+		if r, ok := res[id].(*ScanResult); ok && r != nil {
+			verifAssert(r.Host == tg[id].host, "record does not carry its own probe's host")
+		}
 	}
 	verifCover("done")
 }
